@@ -7,7 +7,7 @@ if ! git diff --quiet; then echo "repo dirty, refusing"; exit 2; fi
 git apply /verif/seeded/$seed/patch.diff || { echo "$seed: patch does not apply"; exit 2; }
 for id in "$@"; do
   s=$(date +%s)
-  timeout 2400 /verif/bin/vcheck $id --tier ${TIER:-quick} > /tmp/seed_${seed}_$id.log 2>&1; rc=$?
+  VERIF_EVIDENCE_DIR=/tmp/seed_evidence timeout 2400 /verif/bin/vcheck $id --tier ${TIER:-quick} > /tmp/seed_${seed}_$id.log 2>&1; rc=$?
   echo "seed=$seed check=$id rc=$rc $(( $(date +%s)-s ))s :: $(grep -E '^VIOLATION' /tmp/seed_${seed}_$id.log | head -2 | cut -c1-220 | tr '\n' ' ') $(grep -E '^INCONCLUSIVE' /tmp/seed_${seed}_$id.log | head -1 | cut -c1-200)"
 done
 git -C /repo checkout -- .
